@@ -495,8 +495,28 @@ func drawStruct(t *rapid.T, idx int, exclFragile map[string]bool, forceJson bool
 			clsPool = append(clsPool, "public", "public", "public")
 		}
 		cls := rapid.SampledFrom(clsPool).Draw(t, "namecls")
-		if s.json && (cls == "embedded" || cls == "underscore") {
+		if s.json && cls == "underscore" {
 			cls = "safe"
+		}
+		if s.json && cls == "embedded" {
+			// @fp.Json: embedded fields whose JSON encoding is faithful and never null - a non-nil pointer to a
+			// struct of exported fields, a named float. (The Mutable struct embeds them under a json tag with the
+			// type's name, so encoding/json treats them as ordinary named fields.)
+			cls = "safe"
+			switch k := rapid.IntRange(0, 1).Draw(t, "jsonEmbedKind"); {
+			case k == 0 && !used["embedptr"]:
+				used["embedptr"] = true
+				cls = "json-embedded"
+				f = field{name: "EmbedPtr", embedded: true, t: ty{expr: "*EmbedPtr", kind: "embedded-pointer", jsonSafe: true, lit: func(t *rapid.T) string {
+					return "&EmbedPtr{PX: " + intLit(t) + "}"
+				}}}
+			case k == 1 && !used["embednamed"]:
+				used["embednamed"] = true
+				cls = "json-embedded"
+				f = field{name: "EmbedNamed", embedded: true, t: ty{expr: "EmbedNamed", kind: "embedded-named", jsonSafe: true, lit: func(t *rapid.T) string {
+					return rapid.SampledFrom([]string{"EmbedNamed(0)", "EmbedNamed(1.5)", "EmbedNamed(-2)"}).Draw(t, "embedNamed")
+				}}}
+			}
 		}
 		switch cls {
 		case "safe":
@@ -958,7 +978,7 @@ func jsonTwinTag(s structSpec, f field) string {
 // (fp.Seq, MyStr, fp.Either) are not.
 func nilable(t ty) bool {
 	switch t.kind {
-	case "pointer", "slice", "map", "interface", "interface-inline", "json-any", "func", "chan":
+	case "pointer", "slice", "map", "interface", "interface-inline", "json-any", "func", "chan", "embedded-pointer", "embedded-interface":
 		return true
 	}
 	return t.expr == "string"
